@@ -39,6 +39,11 @@ func ParseConfig() (*Config, error) {
 		return nil, fmt.Errorf("failed to load config (%s): %v", envPath, err)
 	}
 
+	if c.RegConfig == nil {
+		// the file sets none of the registration options: run with the defaults
+		c.RegConfig = &RegConfig{}
+	}
+
 	err = c.ParseBlocklists()
 	if err != nil {
 		return nil, fmt.Errorf("failed to load config (%s): %v", envPath, err)
